@@ -154,10 +154,29 @@ func runC10(t *testing.T, c DamageCase) *kit.Result {
 			evals++
 			var r1 map[string][]byte
 			kit.OnNode(fs, "n1", "recover", func() {
+				// the other log files, all undamaged
+				walDir := F[:strings.LastIndex(F, "/")]
+				older := map[string]string{}
+				if ents, err := simos.ReadDir(walDir); err == nil {
+					for _, en := range ents {
+						p := walDir + "/" + en.Name()
+						if p != F && strings.HasSuffix(p, ".wal") {
+							if b, err := simos.ReadFile(p); err == nil {
+								older[p] = string(b)
+							}
+						}
+					}
+				}
 				e, err := kit.OpenEngine("n1", c.Knobs)
 				if err != nil {
 					fail(&kit.Violation{Kind: "open-error-after-damage", Signature: "open-error-after-damage:" + strings.SplitN(what, " ", 2)[0], Detail: fmt.Sprintf("%s: %v\nfiles:\n%s", what, err, fs.Snapshot("n1").Describe())})
 					return
+				}
+				for p, content := range older {
+					if b, err := simos.ReadFile(p); err != nil || string(b) != content {
+						fail(&kit.Violation{Kind: "undamaged-log-discarded", Signature: "undamaged-log-file-discarded", Detail: fmt.Sprintf("%s: the undamaged log file %s is gone or changed after the open (%v)\nfiles:\n%s", what, p, err, fs.Snapshot("n1").Describe())})
+						return
+					}
 				}
 				obs, problem, err := kit.Observe(e, m.Keys())
 				if err != nil || problem != "" {
@@ -355,6 +374,9 @@ func runC10(t *testing.T, c DamageCase) *kit.Result {
 		}
 		res.Evals = evals
 		res.Probes["log_records"] += int64(len(starts))
+		if size > 160*1024 {
+			res.Probe("logs_longer_than_160KB")
+		}
 		res.Probes["older_log_files_steps"] += int64(older)
 		res.Nontrivial = evals >= 10 && m.Len() >= 2
 		res.Note = fmt.Sprintf("%d steps (%d in older files), newest log %d bytes / %d records, %d damaged images recovered", m.Len(), older, size, len(starts), evals)
@@ -388,13 +410,22 @@ func TestC10(t *testing.T) {
 			ks := kit.GenKeySpace(r, kit.PickOf(r, 2, 4, 8))
 			o := kit.ProgOpts{Keys: ks, MinOps: 1, MaxOps: 14, Big: r.Bool(0.1), WTxn: 12, WBatch: 8, WFlush: 5}
 			c.Ops = kit.GenProgram(r, o)
-			if r.Bool(0.03) {
+			if r.Bool(0.06) {
 				// a long log: recovery's skip-ahead after damage (32 KB at a time)
-				// has room to run several times before the end of the file
+				// has room to run several times before the end of the file; an
+				// older, undamaged log file precedes it
 				var tag uint32 = 5000
+				for i, n := 0, r.Range(1, 4); i < n; i++ {
+					tag++
+					c.Ops = append(c.Ops, kit.Op{K: "put", Key: ks.Pick(r), Tag: tag, Len: r.Range(1, 40)})
+				}
+				c.Ops = append(c.Ops, kit.Op{K: "flush"})
+				// value bodies of one repeated byte: wherever a skip-ahead lands
+				// inside a value it reads the same plausible-looking header
+				fill := kit.PickOf(r, byte(0), 'v', 0x01, 0x20)
 				for i, n := 0, r.Range(180, 330); i < n; i++ {
 					tag++
-					c.Ops = append(c.Ops, kit.Op{K: "put", Key: ks.Pick(r), Tag: tag, Len: r.Range(900, 1100)})
+					c.Ops = append(c.Ops, kit.Op{K: "put", Key: ks.Pick(r), Tag: tag, Len: r.Range(900, 1100), Fill: fill})
 				}
 			}
 			// end with writes so that the newest file is not empty (sometimes
@@ -436,6 +467,6 @@ func TestC10(t *testing.T) {
 			return out
 		},
 		Strip: func(c DamageCase) any { d := c; d.Sched = kit.Sched{}; return d },
-		Rule:  "generated logs (engine, synchronous logging, rotation only at explicit flushes so every step's byte extent in the newest file is known); truncation at every byte (files up to all_bytes) or every record boundary +-8 plus 64 random offsets: the reopened state must be exactly the state after the steps wholly before the cut; single-byte corruption of all 7 header bytes of every record and 2 payload bytes per record x {bit flip, 0x00, 0xff, +1}: opening succeeds and every key reads its value after the undamaged prefix or a value written by a later entry; a sample of images then takes 1-5 further acknowledged writes and a clean or crash restart, after which exactly those writes are added. evaluations = damaged images recovered",
+		Rule:  "generated logs (engine, synchronous logging, rotation only at explicit flushes so every step's byte extent in the newest file is known); truncation at every byte (files up to all_bytes) or every record boundary +-8 plus 64 random offsets: the reopened state must be exactly the state after the steps wholly before the cut; single-byte corruption of all 7 header bytes of every record and 2 payload bytes per record x {bit flip, 0x00, 0xff, +1}: opening succeeds and every key reads its value after the undamaged prefix or a value written by a later entry; after every open the other (undamaged) log files must still be in place, byte for byte; a sample of images then takes 1-5 further acknowledged writes and a clean or crash restart, after which exactly those writes are added. evaluations = damaged images recovered",
 	})
 }
